@@ -103,6 +103,13 @@ Definition generate_cli (Q : quirks) (S : schema) (valid : bool) (d : document) 
   | None => GError
   end.
 
+(** ... with the generator of the current tree *)
+Definition generate_real (S : schema) (valid : bool) (d : document) : gen_result :=
+  match load_schema S with
+  | Some S' => generate_s S' valid d
+  | None => GError
+  end.
+
 (** number of list / non-null wrappers around the named type *)
 Fixpoint wrappers (t : gqltype) : nat :=
   match t with TNamed _ => O | TList t' => Datatypes.S (wrappers t') | TNonNull t' => Datatypes.S (wrappers t') end.
